@@ -17,7 +17,17 @@ func init() {
 			Count: func(string) int { return len(progs) },
 			Run: func(_ string, idx int, r *Result) {
 				src := progs[idx]
-				a := Analyze(map[string]string{"main": src}, true)
+				// "//// module <name>" lines split the text into several modules (default: main)
+				mods := map[string]string{}
+				cur := "main"
+				for _, ln := range strings.SplitAfter(src, "\n") {
+					if strings.HasPrefix(ln, "//// module ") {
+						cur = strings.TrimSpace(strings.TrimPrefix(ln, "//// module "))
+						continue
+					}
+					mods[cur] += ln
+				}
+				a := Analyze(mods, true)
 				fmt.Fprintf(os.Stderr, "== %s\nanalysis: %s\n", src, a.Obs.String())
 				for _, d := range a.Diags {
 					fmt.Fprintf(os.Stderr, "   diag[%v]: %s\n", d.Level, d.Message)
